@@ -3,6 +3,8 @@ SPECIFICATION Spec
 CONSTANTS
   SameFs = TRUE
   LinkBackup = FALSE
+  ClockSteps = TRUE
+  StaleCheck = FALSE
 INVARIANTS
   TypeOK
   RoundTrip
